@@ -248,7 +248,11 @@ pub fn observe(ex: &mut Exec, bytes: &[u8], pws: &[Vec<u8>], max_entries: usize)
     m.insert("ev".into(), json!("Layout"));
     m.insert("L".into(), l.unwrap_or_else(|p| json!({"ok": false, "why": format!("lexer panic {}", panic_msg(&p))})));
     ex.ev(m);
-    let r = catch_unwind(AssertUnwindSafe(|| ZipArchive::new(Cursor::new(bytes))));
+    // the archive is reopened through a reader that, for three scenarios out of four, returns short reads (the plan depends
+    // on the scenario's name only): nothing the reader reports - entries, comment, offsets - may depend on it
+    let hsc = ex.sc.bytes().fold(0xcbf29ce484222325u64, |h, b| (h ^ b as u64).wrapping_mul(0x100000001b3));
+    let plan = match hsc % 4 { 1 => json!({"max": 3}), 2 => json!({"list": [4096, 1]}), 3 => json!({"max": 100}), _ => json!({}) };
+    let r = catch_unwind(AssertUnwindSafe(|| ZipArchive::new(crate::eexec::Chunked::new(bytes, &plan))));
     let mut m = Map::new();
     m.insert("ev".into(), json!("Open"));
     let mut n = 0usize;
